@@ -736,7 +736,7 @@ func (n *RegexNode) makeLoopAtomic() {
 			// If this is now a One repeater with a small enough length,
 			// make it a Multi instead, as they're better optimized down the line.
 			n.T = NtMulti
-			n.Str = []rune(strings.Repeat(string(n.Ch), n.N))
+			n.Str = slices.Repeat([]rune{n.Ch}, n.N) // not via string: a surrogate would become U+FFFD
 			n.Ch = 0x0
 			n.M = 0
 			n.N = 0
@@ -1880,7 +1880,7 @@ func (n *RegexNode) makeQuantifier(lazy bool, min, max int) *RegexNode {
 		// processing. The counts used here in real-world expressions are invariably small (e.g. 4),
 		// but we set an upper bound just to avoid creating really large strings.
 		n.T = NtMulti
-		n.Str = []rune(strings.Repeat(string(n.Ch), max))
+		n.Str = slices.Repeat([]rune{n.Ch}, max)
 		n.Ch = 0
 		return n
 	}
